@@ -126,7 +126,7 @@ def r09_2(ctx):
                 t = ctor(v, "v_type")
                 val = ctor(v, "val")
                 tt = (t.fields.get("_signed"), t.fields.get("_bit_width")) if isinstance(t, AObj) else None
-                res.add(("value", O.c_convert(val, tt) if isinstance(val, int) and not isinstance(val, bool) and tt else val, tt))
+                res.add(("value", val, tt))
             elif isinstance(v, AObj) and v.cls == "Bool":
                 res.add(("bool", bool(ctor(v, "val"))))
             else:
